@@ -2,6 +2,7 @@ package props
 
 import (
 	"fmt"
+	"go/token"
 	"sort"
 	"strings"
 
@@ -112,6 +113,10 @@ func c19Rules(p *core.Prog, r *core.Run) {
 	// --- HOST
 	nHost := 0
 	for _, st := range storesTo(p, lits, "host") {
+		// (the resolver object's field, not a like-named field of some helper struct)
+		if fa, isFA := st.Addr.(*ssa.FieldAddr); !isFA || !strings.HasSuffix(deref2(fa.X.Type()).String(), "transportResolver") {
+			continue
+		}
 		nHost++
 		v := p.X(st.Val)
 		ok := true
@@ -243,6 +248,32 @@ func c19Rules(p *core.Prog, r *core.Run) {
 				}
 			}
 		}
+		// nothing reads the scheme before the upgrade except the upgrade's own
+		// test: the default port and the pool key are those of the scheme the
+		// request is sent with
+		early := ""
+		for _, b := range fn.Blocks {
+			for _, in := range b.Instrs {
+				ld, ok := in.(*ssa.UnOp)
+				if !ok || ld.Op != token.MUL {
+					continue
+				}
+				fa, ok := ld.X.(*ssa.FieldAddr)
+				if !ok || fieldVar(fa) == nil || fieldVar(fa).Name() != "Scheme" || !core.MayFollow(ld, st) || ld.Block() == st.Block() {
+					continue
+				}
+				own := false
+				for _, f := range fs {
+					if f.L.Val == ssa.Value(ld) {
+						own = true
+					}
+				}
+				if !own && len(*ld.Referrers()) > 0 {
+					early = p.InstrPos(ld)
+				}
+			}
+		}
+		r.Check("C19.UPGRADE", "scheme-read-after-upgrade", early == "", p.InstrPos(st), "the scheme is not consulted (for the default port, the pool key) before the upgrade is decided (read at %q)", early)
 		r.Check("C19.UPGRADE", "scheme-upgrade-always", always, p.InstrPos(st), "the upgrade happens whenever the origin publishes HTTPS records and the scheme is http: with both assumed, no way to a return goes round the store (one does: %q)", skipped)
 	}
 	r.Floor("C19.UPGRADE", 1)
@@ -318,7 +349,59 @@ func c19Rules(p *core.Prog, r *core.Run) {
 
 func c19H3(p *core.Prog, r *core.Run, rt *ssa.Function) {
 	isContains := func(e *core.Expr, proto string) bool {
-		return e.Op == "call" && e.Name == "slices.Contains" && len(e.Args) == 2 && e.Args[0].Op == "field" && e.Args[0].Name == "ALPN" && e.Args[1].Name == `"`+proto+`"`
+		if e.Op == "call" && e.Name == "slices.Contains" && len(e.Args) == 2 && e.Args[0].Op == "field" && e.Args[0].Name == "ALPN" && e.Args[1].Name == `"`+strings.TrimPrefix(proto, "=")+`"` {
+			return true
+		}
+		// slices.ContainsFunc(ALPN, func(p string) bool { return p == "a" || p == "b" }):
+		// a membership test for each protocol the predicate accepts
+		if e.Op == "call" && e.Name == "slices.ContainsFunc" && len(e.Args) == 2 && e.Args[0].Op == "field" && e.Args[0].Name == "ALPN" && e.Args[1].Fn != nil {
+			pred := e.Args[1].Fn
+			if len(pred.Params) != 1 {
+				return false
+			}
+			// every return is the parameter compared with a constant, or a
+			// constant; the constants compared with are what it accepts
+			accepts := map[string]bool{}
+			okShape := true
+			var visit func(v ssa.Value, depth int)
+			visit = func(v ssa.Value, depth int) {
+				switch x := v.(type) {
+				case *ssa.Const:
+				case *ssa.Phi:
+					if depth > 4 {
+						okShape = false
+						return
+					}
+					for _, ed := range x.Edges {
+						visit(ed, depth+1)
+					}
+				case *ssa.BinOp:
+					c, isC := x.Y.(*ssa.Const)
+					if x.Op == token.EQL && x.X == ssa.Value(pred.Params[0]) && isC && c.Value != nil {
+						accepts[c.Value.ExactString()] = true
+					} else {
+						okShape = false
+					}
+				default:
+					okShape = false
+				}
+			}
+			for _, ret := range core.Returns(pred) {
+				visit(ret.Results[0], 0)
+			}
+			// the tests leading to a `return true` constant
+			for _, b := range pred.Blocks {
+				if iff, ok := b.Instrs[len(b.Instrs)-1].(*ssa.If); ok {
+					visit(iff.Cond, 0)
+				}
+			}
+			if strings.HasPrefix(proto, "=") {
+				// asked whether a positive answer means exactly this protocol
+				return okShape && len(accepts) == 1 && accepts[`"`+proto[1:]+`"`]
+			}
+			return okShape && accepts[`"`+proto+`"`]
+		}
+		return false
 	}
 	// the scan loop: a loop over res.HTTPS in RoundTrip itself
 	var hdr *ssa.BasicBlock
@@ -453,7 +536,7 @@ func c19H3(p *core.Prog, r *core.Run, rt *ssa.Function) {
 			if f.Op == "!=" && f.R != nil && f.R.Name == "0" && f.L.Op == "field" && f.L.Name == "Priority" {
 				svc = true
 			}
-			if f.Op == "true" && isContains(f.L, "h3") {
+			if f.Op == "true" && isContains(f.L, "=h3") {
 				h3 = true
 			}
 		}
